@@ -53,6 +53,9 @@ func cpuSeconds() float64 {
 }
 
 func startSpinWatchdog() {
+	if os.Getenv("SIM_NO_SPIN") != "" {
+		return
+	}
 	limit := spinCPULimit()
 	go func() {
 		var lastWaits uint64
